@@ -5,6 +5,6 @@ f=$1; shift
 out=$(mktemp -d)
 g++ -std=gnu++17 -DHAVE_CONFIG_H=1 -I/repo/src -I/repo/_build/src -I/repo/_build "$(dirname $0)/$f" -o $out/a.out -L/repo/_build/src -l:libxerces-c-4.0.so -Wl,-rpath,/repo/_build/src
 set +e
-$out/a.out "$@"; rc=$?
+${VX_RUNNER:-} $out/a.out "$@"; rc=$?
 rm -rf $out
 exit $rc
